@@ -262,10 +262,29 @@ func (tx *FnTx) applyContract(c *FnContract, key string, names []string, args []
 	return res, post
 }
 
+// afterCall runs the "after" call assertions and applies result captures; returns the (possibly new) state.
+func (tx *FnTx) afterCall(desc string, post, pre *State, res []Term) *State {
+	tx.checkCallAsserts(desc, "after", post, pre, res)
+	if tx.c == nil {
+		return post
+	}
+	out := post
+	for _, cp := range tx.c.Captures {
+		if strings.Contains(desc, cp.Pattern) && cp.K < len(res) {
+			if out == post {
+				out = post.clone()
+			}
+			out.ghost["cap!"+cp.Name] = Term{S: res[cp.K].S, Sort: res[cp.K].Sort, GT: res[cp.K].GT}
+		}
+	}
+	return out
+}
+
 func (tx *FnTx) checkCallAsserts(desc string, when string, st, pre *State, res []Term) {
 	if tx.c == nil {
 		return
 	}
+
 	for _, ca := range tx.c.CallAsserts {
 		if ca.When != when || !strings.Contains(desc, ca.Pattern) {
 			continue
@@ -326,8 +345,7 @@ func (tx *FnTx) callCommon(cc *ssa.CallCommon, v ssa.Value, st *State) *State {
 			}
 			res, post := tx.applyContract(c, key, names, args, sig, cc.Method.Pkg(), st, nil, nil)
 			tx.setResult(v, sig, res)
-			tx.checkCallAsserts(desc, "after", post, st, res)
-			return post
+			return tx.afterCall(desc, post, st, res)
 		}
 		if mp := cc.Method.Pkg(); mp != nil && (noopPkgs[mp.Path()] || purePkgs[mp.Path()]) {
 			res := tx.freshResults("lib_"+sanitize(cc.Method.Name()), sig, st)
@@ -339,8 +357,7 @@ func (tx *FnTx) callCommon(cc *ssa.CallCommon, v ssa.Value, st *State) *State {
 		post := tx.h.havocAll(st)
 		res := tx.freshResults("inv_"+cc.Method.Name(), sig, post)
 		tx.setResult(v, sig, res)
-		tx.checkCallAsserts(desc, "after", post, st, res)
-		return post
+		return tx.afterCall(desc, post, st, res)
 	}
 	for _, a := range cc.Args {
 		args = append(args, tx.val(a))
@@ -354,8 +371,7 @@ func (tx *FnTx) callCommon(cc *ssa.CallCommon, v ssa.Value, st *State) *State {
 	tx.checkCallAsserts(desc, "before", st, st, nil)
 	// 3. modelled library functions
 	if post, ok := tx.modelled(key, callee, cc, v, args, st); ok {
-		tx.checkCallAsserts(desc, "after", post, st, nil)
-		return post
+		return tx.afterCall(desc, post, st, nil)
 	}
 	// 4. contract
 	if c := tx.cs.Fns[key]; c != nil {
@@ -380,8 +396,7 @@ func (tx *FnTx) callCommon(cc *ssa.CallCommon, v ssa.Value, st *State) *State {
 		}
 		res, post := tx.applyContract(c, key, names, args, sig, pkg, st, fvLocs, fvVals)
 		tx.setResult(v, sig, res)
-		tx.checkCallAsserts(desc, "after", post, st, res)
-		return post
+		return tx.afterCall(desc, post, st, res)
 	}
 	// 5. defaults
 	pkgPath := ""
@@ -397,8 +412,7 @@ func (tx *FnTx) callCommon(cc *ssa.CallCommon, v ssa.Value, st *State) *State {
 		}
 		tx.setResult(v, sig, res)
 		tx.note("library call treated as effect-free with unconstrained result: " + pkgPath)
-		tx.checkCallAsserts(desc, "after", st, st, res)
-		return st
+		return tx.afterCall(desc, st, st, res)
 	}
 	if tx.c != nil && tx.c.NoPanicOwn && strings.HasPrefix(pkgPath, modPath) {
 		tx.note("assumed not to panic: " + key + " (called from " + tx.key + ")")
@@ -410,8 +424,7 @@ func (tx *FnTx) callCommon(cc *ssa.CallCommon, v ssa.Value, st *State) *State {
 	post := tx.h.havocAll(st)
 	res := tx.freshResults("call_"+sanitize(callee.Name()), sig, post)
 	tx.setResult(v, sig, res)
-	tx.checkCallAsserts(desc, "after", post, st, res)
-	return post
+	return tx.afterCall(desc, post, st, res)
 }
 
 // fnValName gives the source-level name of a called function value.
@@ -462,8 +475,7 @@ func (tx *FnTx) callDynamic(cc *ssa.CallCommon, v ssa.Value, args []Term, st *St
 	}
 	tx.setResult(v, sig, res)
 	tx.note("call of function value " + name + " in " + tx.key + ": arbitrary heap effect, traced in ghost calls/lastarg/lastret")
-	tx.checkCallAsserts(desc, "after", post, st, res)
-	return post
+	return tx.afterCall(desc, post, st, res)
 }
 
 func (tx *FnTx) runDefers(st *State) *State {
